@@ -114,6 +114,20 @@ Proof. exact carrier_accepted. Qed.
 Theorem C07_carrier_roundtrip : forall c pre x, x <> [] -> carried c (inject c x pre) = x.
 Proof. exact carrier_roundtrip. Qed.
 
+(* a sender WITHOUT a transaction (no transaction, or suspended by NotSupported / Never scopes):
+   whatever xid keys its outgoing context still holds, under any spelling and shape, the callee
+   sees NO transaction -- gRPC and HTTP.  The dubbo filter forwards such attachments unchanged
+   (finding carrier.dubbo.no-tx-stale-attachment): refuted, with the partial statement *)
+Theorem C07_carrier_no_transaction : forall c pre, c <> Dubbo -> carried c (inject c [] pre) = [].
+Proof. exact carrier_no_transaction. Qed.
+
+Theorem C07_carrier_no_transaction_dubbo_refuted : exists pre, carried Dubbo (inject Dubbo [] pre) <> [].
+Proof. exact carrier_no_transaction_dubbo_refuted. Qed.
+
+Theorem C07_carrier_no_transaction_dubbo_partial : forall pre,
+  carried Dubbo pre = [] -> carried Dubbo (inject Dubbo [] pre) = [].
+Proof. exact carrier_no_transaction_dubbo_partial. Qed.
+
 (* every upper/lower-case spelling of TX_XID is accepted by the gRPC and gin receivers *)
 Theorem C07_carrier_case_spellings : forall k, lower k = k_tx_xid ->
   accepted Grpc k = true /\ accepted Gin k = true.
